@@ -10,6 +10,7 @@ import (
 	exta "github.com/awalterschulze/goderive/vxfix/static/c01forms/exta/ext"
 	extb "github.com/awalterschulze/goderive/vxfix/static/c01forms/extb/ext"
 	"github.com/awalterschulze/goderive/vxfix/static/c01forms/extc/ext2"
+	usort "github.com/awalterschulze/goderive/vxfix/static/c01forms/extd/sort"
 	"github.com/awalterschulze/goderive/vxlib/vx"
 )
 
@@ -165,4 +166,13 @@ func VX_C01_form_namedkeys() {
 	vx.Assert(deriveHashPalette(x) == deriveHashPalette(x), "hash repeatable")
 	l := deriveSortColors([]Color{"b", "a"})
 	vx.Assert(l[0] == "a" && l[1] == "b", "direct sort of a slice of a named string type")
+}
+
+// an imported user package called "sort" next to a generated function that imports the standard library's sort
+func VX_C01_form_samename() {
+	x := vx.NondetOpt[*usort.Item]("x", "len=1,str=1")
+	y := vx.NondetOpt[*usort.Item]("y", "len=1,str=1")
+	vx.Assert(deriveEqualItem(x, x) && deriveEqualItem(x, y) == deriveEqualItem(y, x), "Equal over a struct from a package named like a standard-library package")
+	l := deriveSortStrs([]string{"b", "a"})
+	vx.Assert(l[0] == "a" && l[1] == "b", "Sort (which imports the standard library's sort) in the same generated file")
 }
